@@ -294,20 +294,35 @@ def attribute(c, o):
     """signature of the recorded findings (which deviation can explain a spec failure of this case)"""
     deps = effective(c, o)
     lens = o.get("lens") or []
-    # F18c: a full sync (or the first run) started while a dependency dataset was empty
-    first = True
+    runs = o.get("runs") or []
+    # F18c: some persisted dependency token lies beyond the dataset's feed
+    ri = 0
     for i, op in enumerate(c["ops"]):
-        if op["op"] == "run" and (first or (op.get("full") and not op.get("fix"))):
-            first = False
-            before = lens[i - 1] if (i > 0 and i - 1 < len(lens)) else [0] * c["nds"]
-            if any(before[d["ds"]] == 0 for d in deps):
-                return "F18c"
+        if op["op"] != "run":
+            continue
+        rs = runs[ri] if ri < len(runs) else []
+        ri += 1
+        cur = lens[i] if i < len(lens) else None
+        for r in rs:
+            for (k, z) in r.get("deps") or []:
+                if cur is not None and 0 <= k < len(cur) and z > cur[k]:
+                    return "F18c"
+    # F18a: two dependencies on one dataset, the later one with an outgoing first hop, or a failed run
+    seen = set()
+    shared_out = False
+    for d in deps:
+        if d["ds"] in seen and d["joins"] and not d["joins"][0]["inv"]:
+            shared_out = True
+        seen.add(d["ds"])
     dss = [d["ds"] for d in deps]
-    if len(set(dss)) < len(dss):
+    failed = any(r.get("outcome") == "failed" for rs in runs for r in rs)
+    if len(set(dss)) < len(dss) and (shared_out or failed):
         return "F18a"
     if c.get("latest"):
         return "F18d"
-    if any(d["joins"] and not d["joins"][0]["inv"] for d in deps):
+    # F18b: a write batch with several entities to a dependency dataset whose first hop is outgoing
+    out_first = set(d["ds"] for d in deps if d["joins"] and not d["joins"][0]["inv"])
+    if any(op["op"] == "w" and op["ds"] in out_first and len(op.get("es") or []) >= 2 for op in c["ops"]):
         return "F18b"
     return None
 
